@@ -25,19 +25,29 @@ var VerifMaxDepth int
 var VerifDepth int
 
 func verifTick() {
+	// counts only while a budget is set, so that concurrent executions (which set none)
+	// never write the counters
+	if VerifTickBudget <= 0 {
+		return
+	}
 	VerifTicks++
-	if VerifTickBudget > 0 && VerifTicks > VerifTickBudget {
+	if VerifTicks > VerifTickBudget {
 		panic(VerifBudgetExceeded{Ticks: VerifTicks, Depth: VerifDepth})
 	}
 }
 
 func verifEnterCall() func() {
+	if VerifMaxDepth <= 0 {
+		return verifNoop
+	}
 	VerifDepth++
-	if VerifMaxDepth > 0 && VerifDepth > VerifMaxDepth {
+	if VerifDepth > VerifMaxDepth {
 		panic(VerifBudgetExceeded{Ticks: VerifTicks, Depth: VerifDepth})
 	}
 	return verifLeaveCall
 }
+
+func verifNoop() {}
 
 func verifLeaveCall() {
 	VerifDepth--
